@@ -1267,3 +1267,55 @@ def self_assign_noop(prog, chk, rid, classes=("List", "Map", "MultiMap", "HashMa
                             evals=len(events) + 1)
                 else:
                     chk.ok(rid, f, "self-assignment touches no node", where, "%d node events, all behind the alias guard" % len(events), evals=len(events) + 1)
+
+
+def erase_then_step(prog, chk, rid, funcs, floor=0):
+    """`i = remove(i)` already yields the successor: an iteration that removes must not also step the iterator, or the element behind
+    every removed one is never looked at (and the walk steps over the end when the last one is removed)"""
+    chk.rule(rid, "CNT: in a loop, no path from `it = <container>.remove(it)` (the successor) back to the loop head passes an advance "
+                  "(`++it`, `it = it->next`) of the same iterator", floor=floor)
+    n = 0
+    for f in funcs:
+        if not f.blocks:
+            continue
+        for st in q.stores(f):
+            if st.op != "=" or st.rhs is None:
+                continue
+            l = f.nodes[st.lhs]
+            if l["k"] != "DeclRefExpr" or l["ref"].get("dk") != "local":
+                continue
+            rn = f.nodes[f.strip(st.rhs)]
+            calls_ = [x for x in [f.strip(st.rhs)] + list(f.desc(st.rhs)) if f.nodes[x]["k"] == "CXXMemberCallExpr" and re.search(r"::remove$", f.nodes[x].get("callee") or "")]
+            if not calls_:
+                continue
+            a_ = q.call_args(f, calls_[0])
+            if not a_ or q.no_casts(f.r(a_[0])) != l["ref"]["n"]:
+                continue
+            lb = loop_blocks(f, st.node)
+            if not lb:
+                continue
+            n += 1
+            heads = [x for x in lb if any(p_ not in lb for p_ in f.preds.get(x, []))]
+            vid, vn = l["ref"]["id"], l["ref"]["n"]
+            steps = []
+            for i, m in enumerate(f.nodes):
+                if f.node_pos(i) is None or f.node_pos(i)[0] not in lb:
+                    continue
+                if m["k"] == "CXXOperatorCallExpr" and m.get("oop") == "++" and len(m["c"]) >= 2:
+                    o = f.nodes[f.strip(m["c"][1])]
+                    if o["k"] == "DeclRefExpr" and o["ref"].get("id") == vid:
+                        steps.append(i)
+                elif m["k"] == "UnaryOperator" and m.get("op") == "++" and f.nodes[f.strip(m["c"][0])].get("ref", {}).get("id") == vid:
+                    steps.append(i)
+            bad = None
+            for s_ in steps:
+                sp = f.node_pos(s_)
+                if heads and f.find_path(f.node_pos(st.node), {sp}, avoid={(heads[0], 0)}) is not None:
+                    bad = s_
+            if bad is not None:
+                chk.bad(rid, f, "step-after-erase:" + vn, f.where(bad),
+                        "`%s` already designates the element behind the removed one when `%s` runs in the same iteration: that element is "
+                        "skipped (never tested), and after removing the last element the iterator steps over the end sentinel" % (vn, f.r(bad)), evals=len(steps) + 1)
+            else:
+                chk.ok(rid, f, "`%s = remove(%s)` is not followed by a step in the same iteration" % (vn, vn), f.where(st.node), "path search to the loop head", evals=len(steps) + 1)
+    return n
